@@ -28,7 +28,7 @@ theorem applyEdits_prefix (c : Bytes) (off : Nat) (es : List Edit) (h : Consiste
 
 /-- no edits: the file is unchanged -/
 theorem applyEdits_nil (c : Bytes) : applyEdits c [] = .ok c := by
-  simp [applyEdits, run]
+  simp [applyEdits, applyEditsG, runG]
 
 /-- Non-vacuity: a two-edit plan over multi-byte text satisfies the guard … -/
 example : Consistent b!"é foo_bar; fooBar" 0
@@ -50,9 +50,35 @@ theorem applyEdits_unsorted_witness :
                           { before := b!"bb", after := b!"X", start := 3, stop := 5 }]
       = .ok b!"YYYY X" := by decide
 
-/-- an offset inside a character makes the Rust code panic, not fail -/
-theorem applyEdits_midchar_panics :
-    applyEdits b!"é" [{ before := b!"", after := b!"x", start := 1, stop := 1 }] = .error .panic := by decide
+/-- an offset inside a character (or past the end) is reported as a stale plan: a clean failure, nothing written
+    (repo commit 29e3f64; before it the unchecked slice panicked) -/
+theorem applyEdits_midchar_mismatch :
+    applyEdits b!"é" [{ before := b!"", after := b!"x", start := 1, stop := 1 }] = .error .mismatch ∧
+    applyEditsOld b!"é" [{ before := b!"", after := b!"x", start := 1, stop := 1 }] = .error .panic := by decide
+
+/-- the loop as it is never panics: every failure is a reported mismatch — for all contents and edit lists -/
+theorem applyEdits_never_panics (c : Bytes) (es : List Edit) : applyEdits c es ≠ .error .panic := by
+  suffices h : ∀ (l : List Edit) (m : Bytes), runG true c m l ≠ .error .panic from h _ _
+  intro l
+  induction l with
+  | nil => intro m h; simp [runG] at h
+  | cons e l ih =>
+    intro m h
+    simp only [runG] at h
+    cases hs : stepG true c m e with
+    | error x =>
+      rw [hs] at h
+      simp only [Except.error.injEq] at h
+      subst h
+      unfold stepG at hs
+      split at hs
+      · simp at hs
+      · split at hs
+        · simp at hs
+        · split at hs <;> simp at hs
+    | ok m' =>
+      rw [hs] at h
+      exact ih m' h
 
 /-- stale text is reported as a mismatch and nothing is written -/
 theorem applyEdits_stale_mismatch :
